@@ -45,6 +45,19 @@ fn template(mut idx: usize, len: usize) -> String {
     s
 }
 
+/// a writer that accepts at most two bytes per call
+struct Chunky(Vec<u8>);
+impl std::io::Write for Chunky {
+    fn write(&mut self, buf: &[u8]) -> std::io::Result<usize> {
+        let n = buf.len().min(2);
+        self.0.extend_from_slice(&buf[..n]);
+        Ok(n)
+    }
+    fn flush(&mut self) -> std::io::Result<()> {
+        Ok(())
+    }
+}
+
 pub fn run_c12(cx: &Ctx) -> i32 {
     let max_len = if cx.quick() { 5 } else { 7 };
     engine::quiet_panics();
@@ -132,6 +145,19 @@ pub fn run_c12(cx: &Ctx) -> i32 {
                             ex.write_expansion(&mut w, &tpl, c).expect("write");
                             let mut v: Vec<u8> = Vec::new();
                             ex.write_expansion_vec(&mut v, &tpl, c).expect("write vec");
+                            // a destination that takes at most two bytes per write call (a short write
+                            // is not an error; the whole expansion must still arrive) ...
+                            let mut ch = Chunky(Vec::new());
+                            ex.write_expansion(&mut ch, &tpl, c).expect("write to a chunking writer");
+                            let w = if ch.0 == w { w } else { ch.0 };
+                            // ... and one that is full after two bytes: an error, not a silent Ok
+                            if w.len() > 2 {
+                                let mut small = [0u8; 2];
+                                let mut dst: &mut [u8] = &mut small[..];
+                                if ex.write_expansion(&mut dst, &tpl, c).is_ok() {
+                                    return (String::from("<write_expansion into a full 2-byte destination returned Ok>"), String::new(), String::new(), String::new(), String::new());
+                                }
+                            }
                             let mut d = String::new();
                             if *ename == "default" {
                                 c.expand(&tpl, &mut d);
@@ -203,7 +229,7 @@ pub fn run_c12(cx: &Ctx) -> i32 {
         t,
         Finish {
             rule: format!(
-                "all {} templates: every template of length <= {} over {:?} plus {} long templates (an ASCII stretch of every length 0..130, a multi-byte character, a reference; references by numbers at the edges of the 8/16/32/64-bit widths in every reference syntax) x 5 capture sets (named, numbered with 11 groups, unmatched groups, digit-led names, multi-byte) x both expanders (default and Python-style) x 5 entry points (expansion, append_expansion, write_expansion, write_expansion_vec, Captures::expand) which must all agree; oracle: reference expander written from the documentation (frmc-core/src/expandref.rs); expansion(escape(s)) == s for every string of the same space; check accepts only templates all of whose references name an existing group; non-trivial = expansions that differ from the template",
+                "all {} templates: every template of length <= {} over {:?} plus {} long templates (an ASCII stretch of every length 0..130, a multi-byte character, a reference; references by numbers at the edges of the 8/16/32/64-bit widths in every reference syntax) x 5 capture sets (named, numbered with 11 groups, unmatched groups, digit-led names, multi-byte) x both expanders (default and Python-style) x 5 entry points (expansion, append_expansion, write_expansion - into a Vec, into a writer that takes two bytes per call, and into a full destination, which must be an error -, write_expansion_vec, Captures::expand) which must all agree; oracle: reference expander written from the documentation (frmc-core/src/expandref.rs); expansion(escape(s)) == s for every string of the same space; check accepts only templates all of whose references name an existing group; non-trivial = expansions that differ from the template",
                 total, max_len, ALPHA, n_long
             ),
             exhaustive: true,
